@@ -116,7 +116,7 @@ func writeFailure(opts Opts, test string, c *Case, msg string) string {
 	}
 	_ = os.MkdirAll(dir, 0o755)
 	i, _ := Shard()
-	path := filepath.Join(dir, fmt.Sprintf("%s-seed%d-shard%d.json", test, Seed(), i))
+	path := filepath.Join(dir, fmt.Sprintf("%s-seed%d-shard%d.json", strings.ReplaceAll(test, "/", "__"), Seed(), i))
 	tf := TraceFile{Property: opts.ID, Test: test, Message: msg, Notes: c.notes, Trace: c.trace}
 	data, _ := json.MarshalIndent(tf, "", " ")
 	_ = os.WriteFile(path, data, 0o644)
